@@ -25,7 +25,7 @@ func JSONStringToElement(jsonStr *value.String) (r.Element, error) {
 	if delim, ok := tok.(json.Delim); !ok || delim != '{' {
 		return nil, value.ThrowException("解析JSON失败 - JSON文本须为一个对象")
 	}
-	elem, err := decodeJSONObject(dec)
+	elem, err := decodeJSONObject(dec, 1)
 	if err != nil {
 		return nil, value.ThrowException("解析JSON失败 - " + err.Error())
 	}
@@ -38,7 +38,12 @@ func JSONStringToElement(jsonStr *value.String) (r.Element, error) {
 
 // decodeJSONObject - decode the members of an object (after '{' has been read),
 // keeping the keys in document order
-func decodeJSONObject(dec *json.Decoder) (r.Element, error) {
+func decodeJSONObject(dec *json.Decoder, depth int) (r.Element, error) {
+	// the decoder recurses once per level: bound the nesting (as encoding/json does for
+	// Unmarshal), or a document of a few million '[' overflows the Go stack and kills the process
+	if depth > maxJSONDepth {
+		return nil, fmt.Errorf("exceeded max depth %d", maxJSONDepth)
+	}
 	target := value.NewEmptyHashMap()
 	for dec.More() {
 		keyTok, err := dec.Token()
@@ -49,7 +54,7 @@ func decodeJSONObject(dec *json.Decoder) (r.Element, error) {
 		if !ok {
 			return nil, fmt.Errorf("invalid object key")
 		}
-		item, err := decodeJSONValue(dec)
+		item, err := decodeJSONValue(dec, depth)
 		if err != nil {
 			return nil, err
 		}
@@ -62,7 +67,10 @@ func decodeJSONObject(dec *json.Decoder) (r.Element, error) {
 	return target, nil
 }
 
-func decodeJSONValue(dec *json.Decoder) (r.Element, error) {
+// maxJSONDepth - nesting limit of parsed documents (the limit of encoding/json.Unmarshal)
+const maxJSONDepth = 10000
+
+func decodeJSONValue(dec *json.Decoder, depth int) (r.Element, error) {
 	tok, err := dec.Token()
 	if err != nil {
 		return nil, err
@@ -71,11 +79,14 @@ func decodeJSONValue(dec *json.Decoder) (r.Element, error) {
 	case json.Delim:
 		switch v {
 		case '{':
-			return decodeJSONObject(dec)
+			return decodeJSONObject(dec, depth+1)
 		case '[':
+			if depth+1 > maxJSONDepth {
+				return nil, fmt.Errorf("exceeded max depth %d", maxJSONDepth)
+			}
 			varr := value.NewEmptyArray()
 			for dec.More() {
-				item, err := decodeJSONValue(dec)
+				item, err := decodeJSONValue(dec, depth+1)
 				if err != nil {
 					return nil, err
 				}
@@ -143,6 +154,16 @@ func writeJSONValue(buf *bytes.Buffer, elem r.Element) error {
 		buf.WriteByte('}')
 		return nil
 	default:
+		// only 空, texts, booleans and numbers are left: anything else (an object, a type,
+		// a method, an exception) has no JSON form - say so instead of writing null
+		switch elem.(type) {
+		case *value.Null, *value.String, *value.Bool, *value.Number:
+		default:
+			if elem == nil {
+				return fmt.Errorf("无法表示的值")
+			}
+			return fmt.Errorf("「%s」无法表示为JSON", elem.String())
+		}
 		data, err := json.Marshal(buildPlainValueFromElement(elem))
 		if err != nil {
 			return err
